@@ -20,11 +20,13 @@ GNext ==
        /\ \/ \E a \in Acceptors : InOrder(Acceptors, a, apc, "idle") /\ Call(a) /\ Rec([e |-> "call"])
           \/ \E c \in Conns : InOrder(Conns, c, cst, "new") /\ Dial(c) /\ Rec([e |-> "dial"])
           \/ nerr < MaxErrs /\ IErr /\ Rec([e |-> "ierr"])
-          \/ \E c \in Conns : ncl[c] < MaxCloses /\ ConnClose(c) /\ Rec([e |-> "close", c |-> c])
+          \/ \E c \in Conns : ncl[c] < MaxCloses /\ TotalCloses < MaxTotal /\ CStart(c) /\ Rec([e |-> "cstart", c |-> c])
+          \/ \E c \in Conns : CGo(c) /\ Rec([e |-> "cgo", c |-> c])
           \/ /\ Len(hist) > CloseAfter
              /\ \E k \in Closers : InOrder(Closers, k, lpc, "idle") /\ LClose1(k) /\ Rec([e |-> "lclose"])
     \/ Internal /\ UNCHANGED hist
     \/ \E a \in Acceptors : Ret(a) /\ UNCHANGED hist
+    \/ \E c \in Conns : CRet(c) /\ UNCHANGED hist
 
 GSpec == GInit /\ [][GNext]_gvars
 
